@@ -27,9 +27,13 @@ def scenarios_for(pid, devs, rng, tier, shapes):
                     dev = dict(d["dev"])
                     dev["stmt"] = tgt
                     if d.get("need_disclosed", 0):
-                        # make sure the target discloses enough claims
+                        # make sure the target (or the signature statement a targeted predicate refers to) discloses enough claims
+                        sig_tgt = tgt
+                        for x in s["stmts"]:
+                            if x["id"] == tgt and x["k"] != "sig" and "ref" in x:
+                                sig_tgt = x["ref"]
                         for st in s["stmts"]:
-                            if st["k"] == "sig" and st["id"] == tgt:
+                            if st["k"] == "sig" and st["id"] == sig_tgt:
                                 n = len(s["creds"][st["cred"]]["claims"])
                                 lo = 2 if any(x["k"] in ("eq", "comm") for x in s["stmts"]) else 1
                                 pool = list(range(lo, n))
@@ -40,9 +44,14 @@ def scenarios_for(pid, devs, rng, tier, shapes):
                                     st["disclosed"] = sorted(rng.sample(pool, want))
                                 # predicates must stay on hidden claims
                                 for x in s["stmts"]:
-                                    if x["k"] == "comm" and x["ref"] == tgt and x["claim"] in st["disclosed"]:
+                                    if x["k"] == "comm" and x["ref"] == sig_tgt and x["claim"] in st["disclosed"]:
                                         hidden = [i for i in range(n) if i not in st["disclosed"]]
                                         x["claim"] = hidden[-1] if hidden else 0
+                                    if x["k"] == "comm" and x["ref"] == sig_tgt and dev["k"] == "reorder_shift_exploit":
+                                        # a hidden claim after the first disclosed one: where a walk over a reordered list shifts
+                                        later = [i for i in range(n) if i not in st["disclosed"] and st["disclosed"] and i > min(st["disclosed"])]
+                                        if later:
+                                            x["claim"] = later[0]
                     ok = True
                     for st in s["stmts"]:
                         if st["k"] == "sig" and st["id"] == tgt:
